@@ -256,6 +256,8 @@ func (e *Emitter) emitScriptStatement(scriptStmt *ast.ScriptStatement, textLabel
 			if !ok {
 				return "", errors.New("could not emit 'break' statement because its return point is unknown")
 			}
+			// Keep the statements after the break (they may contain labels).
+			remainingChunks, _ = curChunk.splitChunkForBranch(i, &chunkCounter, remainingChunks)
 			completeChunk := &chunk{
 				id:             curChunk.id,
 				returnID:       curChunk.returnID,
@@ -268,6 +270,8 @@ func (e *Emitter) emitScriptStatement(scriptStmt *ast.ScriptStatement, textLabel
 			if !ok {
 				return "", errors.New("could not emit 'continue' statement because its return point is unknown")
 			}
+			// Keep the statements after the continue (they may contain labels).
+			remainingChunks, _ = curChunk.splitChunkForBranch(i, &chunkCounter, remainingChunks)
 			completeChunk := &chunk{
 				id:             curChunk.id,
 				returnID:       curChunk.returnID,
